@@ -128,6 +128,8 @@ pub struct Expect {
 struct World {
     dirs: BTreeSet<String>,
     files: BTreeMap<String, Vec<u8>>,
+    /// named pipes: readable like files, not regular files
+    fifos: BTreeMap<String, Vec<u8>>,
 }
 
 fn world(spec: &RunSpec) -> World {
@@ -149,7 +151,13 @@ fn world(spec: &RunSpec) -> World {
         add_dir(&parent_of(&n), &mut dirs);
         files.insert(n, c.clone());
     }
-    World { dirs, files }
+    let mut fifos = BTreeMap::new();
+    for (p, c) in &spec.fifos {
+        let n = norm(p);
+        add_dir(&parent_of(&n), &mut dirs);
+        fifos.insert(n, c.clone());
+    }
+    World { dirs, files, fifos }
 }
 
 pub fn expect(spec: &RunSpec) -> Expect {
@@ -181,7 +189,7 @@ fn expect_convert(spec: &RunSpec, c: &Convert, w: &World) -> Expect {
         },
         InputSel::File(p) => {
             let n = norm(p);
-            match w.files.get(&n) {
+            match w.files.get(&n).or_else(|| w.fifos.get(&n)) {
                 Some(b) => match String::from_utf8(b.clone()) {
                     Ok(s) => Some(s),
                     Err(_) => {
@@ -436,7 +444,7 @@ pub fn judge(spec: &RunSpec, exp: &Expect, obs: &Observed) -> Vec<Violation> {
             continue;
         }
         match node {
-            Node::Dir => {} // creating directories is not output
+            Node::Dir | Node::Special => {} // creating directories is not output
             Node::File(content) => {
                 if is_expected_output(p, content) {
                     continue;
